@@ -64,6 +64,21 @@ def gen_dense(rng, tier, exact=True):
             "gate_lo": glo, "wire_lo": True, "width": rng.choice([2, 2, 3]), "exact": exact}
 
 
+def gen_mixed_cost(rng, tier):
+    """three or four qubits in a line, width 2, both cut kinds, expensive (swap, iswap: kappa 7) and cheap (cx, cz: kappa 3) gates on
+    repeated neighbouring pairs: the optimum wire-cuts a qubit and later gate-cuts a cheap gate on that same qubit"""
+    nq = rng.randint(3, 4)
+    pairs = [(i, i + 1) for i in range(nq - 1)]
+    instrs = []
+    for _ in range(rng.randint(3, 5)):
+        a, b = rng.choice(pairs)
+        if rng.random() < 0.6:
+            a, b = b, a
+        instrs.append({"name": rng.choice(["swap", "swap", "iswap", "cx", "cx", "cz"]), "qubits": [a, b]})
+    return {"nq": nq, "instrs": instrs, "seed": rng.randrange(1 << 30), "max_gamma": 1e6, "max_backjumps": None,
+            "gate_lo": True, "wire_lo": True, "width": 2, "exact": False}
+
+
 def gen_repeat(rng, tier):
     """gates repeated on the same pair (the second one finds both qubits already in one subcircuit) followed by a gate that needs
     a cut; wire cuts only or both kinds; tight width"""
